@@ -885,6 +885,10 @@ package storage
 //@   ensures[held; C13] txn == 1
 //@   ensures[all; C02 C03] result == nil ==> walWrites == old(walWrites) + 2*len(batch)
 
+// The catalog as an abstract map: catRoot(name) is the root page offset sys_pages records for table name. What a lookup returns
+// defines it; that updatePageTable makes later lookups return the new offset is assumed (it needs the whole-catalog scan argument).
+//@ spec abstract tblKey(name string) int
+//@ ghost var catRoot(k int) int
 //@ func (rs *RelationService) getRelationFileOffset$1(cell *leafCell) (ScanAction, error)
 //@   props C01 C13
 //@   requires cell != nil
@@ -898,6 +902,7 @@ package storage
 //@   modifies all(leafCell.pg), @cacheState, storeState
 //@   ensures[rs] rsOK(rs)
 //@   ensures[notfound; C14] err != nil ==> result0 == 0
+//@   ensures_assumed[catalog.read] err == nil ==> result0 == catRoot(tblKey(relName)) && result0 >= 0
 
 //@ func (rs *RelationService) getRelationSchema$1(cell *leafCell) (ScanAction, error)
 //@   props C01
@@ -964,17 +969,19 @@ package storage
 //@   props C01 C02 C14 C13
 //@   requires fsLocked(rs.fs)
 //@   requires rsOK(rs)
-//@   modifies all(leafCell.pg), all(leafCell.valueBytes), all(leafCell.valueSize), all(btreeNode.dirty), all(btreeNode.lastLSN), @cacheState, storeState, rs.fs._nextLSN
+//@   modifies all(leafCell.pg), all(leafCell.valueBytes), all(leafCell.valueSize), all(btreeNode.dirty), all(btreeNode.lastLSN), @cacheState, storeState, rs.fs._nextLSN, catRoot(tblKey(tableName))
 //@   ensures[rs] rsOK(rs)
 //@   ensures[L1; C02] rs.fs._nextLSN == old(rs.fs._nextLSN) + len(result0)
+//@   ensures_assumed[catalog.write] err == nil ==> catRoot(tblKey(tableName)) == fileOffset
 
 //@ func (rs *RelationService) Insert(tableName string, cols []string, vals []interface{}) (WALBatch, error)
 //@   props C01 C02 C13 C14
 //@   requires rsOK(rs) && txn == 1
 //@   assume[lsn-no-wrap] rs.fs._nextLSN < 18446744073709551615
 //@   assume[rowid-no-wrap] rs.fs.lastKey < 4294967295
-//@   modifies @treeState, @cacheState, storeState, rs.fs._nextLSN, rs.fs.lastKey, rs.fs.nextFreeOffset, allelems(string)
+//@   modifies @treeState, @cacheState, storeState, rs.fs._nextLSN, rs.fs.lastKey, rs.fs.nextFreeOffset, allelems(string), catRoot(tblKey(tableName))
 //@   ensures[rs] rs.fs != nil && rs.wal != nil
+//@   ensures[catalog.root; C01; witness t=bt] err == nil ==> exists t *BTree :: fresh(t) && catRoot(tblKey(tableName)) == t.rootOffset
 //@   ensures[rs.cache] cacheOK(rs.fs)
 //@   ensures[txn; C13] txn == 1
 //@   ensures[L1; C02] err == nil ==> rs.fs._nextLSN == old(rs.fs._nextLSN) + len(result0)
@@ -1059,23 +1066,24 @@ package storage
 //@ func (rs *RelationService) insertSchemaTable(r *Relation, tableName string) error
 //@   props C01 C13
 //@   requires rsOK(rs) && fsLocked(rs.fs) && r != nil
-//@   modifies @treeState, @cacheState, storeState, rs.fs._nextLSN, rs.fs.lastKey, rs.fs.nextFreeOffset
+//@   modifies @treeState, @cacheState, storeState, rs.fs._nextLSN, rs.fs.lastKey, rs.fs.nextFreeOffset, catRoot
 //@   ensures[rs] rsOK(rs)
 //@   loop 1 invariant rsOK(rs)
+//@   loop 1 invariant [root.cur; C01] rangeindex >= 0 ==> bt.rootOffset == schemaTablePg.fileOffset
 //@   loop 1 invariant bt != nil && fresh(bt) && bt.store == rs.fs
 //@   loop 1 invariant schemaTablePg != nil
 
 //@ func (rs *RelationService) createTable(r *Relation, tableName string) error
 //@   props C13 C14
 //@   requires rsOK(rs) && txn == 0 && r != nil
-//@   modifies txn, @treeState, @cacheState, storeState, rs.fs._nextLSN, rs.fs.lastKey, rs.fs.nextFreeOffset, rs.fs.pageTableRoot, written
+//@   modifies txn, @treeState, @cacheState, storeState, rs.fs._nextLSN, rs.fs.lastKey, rs.fs.nextFreeOffset, rs.fs.pageTableRoot, written, catRoot
 //@   ensures[unlock; C13] txn == 0
 //@   ensures[rs] rsOK(rs)
 
 //@ func (rs *RelationService) CreateTable(r *Relation, tableName string) error
 //@   props C13 C14
 //@   requires rsOK(rs) && txn == 0 && r != nil
-//@   modifies txn, @treeState, @cacheState, storeState, rs.fs._nextLSN, rs.fs.lastKey, rs.fs.nextFreeOffset, rs.fs.pageTableRoot, written, fdata, fsize
+//@   modifies txn, @treeState, @cacheState, storeState, rs.fs._nextLSN, rs.fs.lastKey, rs.fs.nextFreeOffset, rs.fs.pageTableRoot, written, fdata, fsize, catRoot
 //@   ensures[unlock; C13] txn == 0
 
 //@ func (rs *RelationService) MarkDeleted(tableName string, rowID uint32) (WALBatch, error)
